@@ -977,7 +977,7 @@ func init() {
 		Doc: "opposite ends, opposite shifts (contradiction rule): a subtree shifter is a recursive function of phase 2 that takes a node and an integer and adds the (negated) integer to Node.Layer of the node and recursively of its tree neighbours. " +
 			"Where a caller chooses between shifting the subtree hanging on one end of an edge (e.From) and the one hanging on its other end (e.To) by the same amount v, the two alternatives must carry opposite signs: moving one side of a tree edge by v and moving the other side by -v are the same relative displacement, " +
 			"moving either side by +v are opposite displacements - one of them stretches the edge it was meant to tighten, or pushes a node above its predecessor",
-		Floor: 1,
+		Floor: 0, // contradiction rule: where the pattern does not occur there is nothing to be inconsistent; the positive control keeps it alive
 		Ctl:   []string{"internal__phase2__bal2.go.txt"},
 		Run:   runBal2,
 	})
@@ -1100,6 +1100,26 @@ func runBal2(m *Model, r *RuleResult) {
 				}
 				a, neg := amount(iv)
 				alts = append(alts, alt{end, edge, a, neg, in.Pos()})
+			}
+			// the choice made by a helper that returns (node, amount): one alternative per return of the helper
+			if ne, ok := nodeArg.(*ssa.Extract); ok {
+				if ie, ok := intArg.(*ssa.Extract); ok && ie.Tuple == ne.Tuple {
+					if hc, ok := ne.Tuple.(*ssa.Call); ok {
+						if h := hc.Call.StaticCallee(); h != nil && inModule(h) && len(h.Blocks) > 0 {
+							eachInstr(h, func(in2 ssa.Instruction) {
+								if ret, ok := in2.(*ssa.Return); ok && ne.Index < len(ret.Results) && ie.Index < len(ret.Results) {
+									end, edge := endOf(ret.Results[ne.Index])
+									if end == "" {
+										return
+									}
+									a, neg := amount(ret.Results[ie.Index])
+									alts = append(alts, alt{end, edge, a, neg, ret.Pos()})
+								}
+							})
+							return
+						}
+					}
+				}
 			}
 			if phi, ok := nodeArg.(*ssa.Phi); ok {
 				iphi, _ := intArg.(*ssa.Phi)
@@ -1280,7 +1300,7 @@ func init() {
 		Doc: "a test-and-set stays together (stale-guard rule): when a function tests a map cell M[k] and, under that test, stores a computed value into the same cell inside a loop in which k does not change, " +
 			"the test is evaluated inside that loop - once per iteration - unless the loop cannot go round again after the store. A guard hoisted in front of the loop is true on entry and says nothing after the first store: " +
 			"what was meant to happen at most once per key happens once per iteration (a node aligned with both of its median neighbours closes no block cycle, and the compaction that walks the cycle never comes back to its root)",
-		Floor: 1,
+		Floor: 0, // contradiction rule: where the pattern does not occur there is nothing to be inconsistent; the positive control keeps it alive
 		Ctl:   []string{"internal__phase4__stale1.go.txt"},
 		Run:   runStale1,
 	})
